@@ -111,6 +111,19 @@ class ForkError(HarnessError):
     pass
 
 
+def _die_with_parent(parent_pid: int):
+    """A forked helper must never outlive the process that waits for it (an orphan that hangs keeps pipes open for ever)."""
+    try:
+        import ctypes
+        import signal
+
+        ctypes.CDLL(None, use_errno=True).prctl(1, signal.SIGKILL, 0, 0, 0)  # PR_SET_PDEATHSIG
+        if os.getppid() != parent_pid:  # the parent died between fork and prctl
+            os._exit(4)
+    except Exception:  # noqa: BLE001
+        pass
+
+
 def in_fork(fn, timeout: float = 120.0):
     """Run fn() in a forked child of THIS interpreter; returns its JSON-able result (exceptions become ForkError)."""
     import json
@@ -119,11 +132,13 @@ def in_fork(fn, timeout: float = 120.0):
     import time
 
     r, w = os.pipe()
+    parent_pid = os.getpid()
     pid = os.fork()
     if pid == 0:
         code = 0
         try:
             os.close(r)
+            _die_with_parent(parent_pid)
             try:
                 out = {"ok": fn()}
             except BaseException as e:  # noqa: BLE001
